@@ -208,9 +208,14 @@ class Cli:
             else:
                 raise RuntimeError('`--model` argument should contain exactly 2 or 3 strings')
 
+            matched = False
             for real_path in process_path(path_raw):
+                matched = True
                 iterator = iter_json_file(parser(real_path), lookup)
                 models_dict[model_name].extend(iterator)
+            if not matched:
+                # (a pattern that matches nothing is as wrong as a file that does not exist)
+                raise FileNotFoundError(f"No file matches '{path_raw}'")
 
         self.models_data = models_dict
 
